@@ -200,7 +200,7 @@ impl Gen {
                 expect.push(me(Some(shape.expected())));
             }
             4 => {
-                inserts.push((*at, format!("{doc}{eol}  /* plain é */ // line 日本{eol}  // void old();{eol}  // interface Old {{{eol}  // }}{eol}  ")));
+                inserts.push((*at, format!("{doc}{eol}  /* plain é */ // line 日本{eol}  // void old();{eol}  //{eol}  //   {eol}  // interface Old {{{eol}  // }}{eol}  ")));
                 expect.push(me(Some(shape.expected())));
             }
             5 => {
